@@ -1,7 +1,1236 @@
-//! C15 — correspondence harness (stub; see /verif/AGENT_GUIDE.md).
+//! C15 — wire and storage encodings round-trip losslessly and hashes commit to content.
+//!
+//! Three streams (`opts.extra[0]`): `mol` (default), `json`, `hash`.
+//!
+//! Protocol (model side: lean/CkbVerif/Driver/C15.lean)
+//!   enc <Type> <val>          -> <hex>             REAL builder (`T::new_builder()…build()`) vs model `encode`
+//!   dec <Type> <s|c> <hex>    -> ok <val> | err    REAL `from_slice` / `from_compatible_slice` + every REAL
+//!                                                  field accessor vs model `decode`
+//!   pre <what> <hex>          -> <hex> | err       the byte string the REAL hash function commits to
+//!                                                  (checked: blake2b(bytes) == calc_*_hash()) vs the model's
+//!                                                  layout-level pre-image
+//!   ju/jp/jb/jq …             JSON scalar encodings (see Driver/C15.lean)
+//!
+//! The schema table, the builders and the readers are generated from util/gen-types/schemas/*.mol by
+//! bin/gen.d/schemas.py into c15_gen.rs (the same script writes the Lean schema table), so every
+//! declared type — not a hand-picked list — is driven.
+//!
+//! Oracle (implementation alone):
+//!   roundtrip        from_slice(build(v).as_slice()) reads back v, in both modes
+//!   rebuild          strict-accepted bytes rebuilt field by field (`as_builder().build()`) give the same bytes
+//!   compat-extends   strict accept ⇒ compatible accept with the same value
+//!   json-identity    packed → json → packed identical bytes; serde_json to_string/from_str identity
+//!   hash-*           cached view hashes equal recomputation; tx hash ignores witnesses, witness hash does not;
+//!                    transactions_root binds order, content and witnesses; proposals/extra hash bind their inputs
 use crate::common::*;
+use std::collections::HashMap;
+use std::panic::{AssertUnwindSafe, catch_unwind};
 
-pub fn run(_opts: &Opts) {
-    eprintln!("C15: harness not implemented in this crate");
-    std::process::exit(2);
+#[path = "c15_gen.rs"]
+pub mod glue;
+
+#[derive(Clone, Copy, Debug)]
+pub enum K {
+    Array(&'static str, usize),
+    Struct(&'static [&'static str]),
+    FixVec(&'static str),
+    DynVec(&'static str),
+    Table(&'static [&'static str]),
+    Option(&'static str),
+    Union(&'static [(u32, &'static str)]),
+}
+
+#[derive(Clone, Debug, PartialEq, Eq)]
+pub enum Val {
+    Byte(u8),
+    /// a sequence of bytes (array / fixvec of `byte`)
+    Bytes(Vec<u8>),
+    Seq(Vec<Val>),
+    None,
+    Some(Box<Val>),
+    Union(u32, Box<Val>),
+}
+
+impl Val {
+    pub fn byte(&self) -> u8 {
+        match self {
+            Val::Byte(b) => *b,
+            _ => panic!("byte value expected, got {}", self),
+        }
+    }
+    pub fn bytes(&self) -> Vec<u8> {
+        match self {
+            Val::Bytes(b) => b.clone(),
+            Val::Seq(s) => s.iter().map(|v| v.byte()).collect(),
+            _ => panic!("byte sequence expected, got {}", self),
+        }
+    }
+    pub fn seq(&self) -> &[Val] {
+        match self {
+            Val::Seq(s) => s,
+            Val::Bytes(b) if b.is_empty() => &[],
+            _ => panic!("sequence expected, got {}", self),
+        }
+    }
+    fn write(&self, s: &mut String) {
+        match self {
+            Val::Byte(b) => s.push_str(&format!("b{:02x}", b)),
+            Val::Bytes(b) if b.is_empty() => s.push_str("()"),
+            Val::Bytes(b) => {
+                s.push('x');
+                for x in b {
+                    s.push_str(&format!("{:02x}", x));
+                }
+            }
+            Val::Seq(v) if v.is_empty() => s.push_str("()"),
+            Val::Seq(v) => {
+                if v.iter().all(|x| matches!(x, Val::Byte(_))) {
+                    s.push('x');
+                    for x in v {
+                        s.push_str(&format!("{:02x}", x.byte()));
+                    }
+                } else {
+                    s.push('(');
+                    for (i, x) in v.iter().enumerate() {
+                        if i > 0 {
+                            s.push(',');
+                        }
+                        x.write(s);
+                    }
+                    s.push(')');
+                }
+            }
+            Val::None => s.push('N'),
+            Val::Some(x) => {
+                s.push('S');
+                x.write(s);
+            }
+            Val::Union(id, x) => {
+                s.push_str(&format!("U{}:", id));
+                x.write(s);
+            }
+        }
+    }
+    pub fn parse(s: &str) -> Val {
+        let cs: Vec<char> = s.chars().collect();
+        let (v, rest) = parse_val(&cs);
+        assert!(rest.is_empty(), "trailing characters in value");
+        v
+    }
+}
+
+impl std::fmt::Display for Val {
+    fn fmt(&self, f: &mut std::fmt::Formatter) -> std::fmt::Result {
+        let mut s = String::new();
+        self.write(&mut s);
+        f.write_str(&s)
+    }
+}
+
+fn hv(c: char) -> Option<u8> {
+    c.to_digit(16).filter(|_| !c.is_ascii_uppercase()).map(|x| x as u8)
+}
+
+fn parse_val(cs: &[char]) -> (Val, &[char]) {
+    match cs.first() {
+        Some('b') => (Val::Byte(hv(cs[1]).unwrap() * 16 + hv(cs[2]).unwrap()), &cs[3..]),
+        Some('x') => {
+            let mut i = 1;
+            let mut out = vec![];
+            while i + 1 < cs.len() + 0 && hv(cs[i]).is_some() && hv(cs[i + 1]).is_some() {
+                out.push(hv(cs[i]).unwrap() * 16 + hv(cs[i + 1]).unwrap());
+                i += 2;
+            }
+            assert!(!out.is_empty());
+            (Val::Bytes(out), &cs[i..])
+        }
+        Some('N') => (Val::None, &cs[1..]),
+        Some('S') => {
+            let (v, r) = parse_val(&cs[1..]);
+            (Val::Some(Box::new(v)), r)
+        }
+        Some('U') => {
+            let mut i = 1;
+            let mut id = 0u32;
+            while cs[i].is_ascii_digit() {
+                id = id * 10 + cs[i].to_digit(10).unwrap();
+                i += 1;
+            }
+            assert_eq!(cs[i], ':');
+            let (v, r) = parse_val(&cs[i + 1..]);
+            (Val::Union(id, Box::new(v)), r)
+        }
+        Some('(') => {
+            if cs[1] == ')' {
+                return (Val::Seq(vec![]), &cs[2..]);
+            }
+            let mut items = vec![];
+            let mut rest = &cs[1..];
+            loop {
+                let (v, r) = parse_val(rest);
+                items.push(v);
+                match r[0] {
+                    ',' => rest = &r[1..],
+                    ')' => return (Val::Seq(items), &r[1..]),
+                    _ => panic!("bad sequence"),
+                }
+            }
+        }
+        _ => panic!("bad value"),
+    }
+}
+
+pub fn unhex(s: &str) -> Vec<u8> {
+    if s == "-" {
+        return vec![];
+    }
+    let b = s.as_bytes();
+    assert!(b.len() % 2 == 0, "odd hex");
+    (0..b.len() / 2).map(|i| hv(b[2 * i] as char).expect("hex") * 16 + hv(b[2 * i + 1] as char).expect("hex")).collect()
+}
+
+pub struct Table {
+    pub map: HashMap<&'static str, K>,
+    pub names: Vec<&'static str>,
+}
+
+impl Table {
+    pub fn new() -> Table {
+        let mut map = HashMap::new();
+        let mut names = vec![];
+        for (n, k) in glue::TYPES {
+            map.insert(*n, *k);
+            names.push(*n);
+        }
+        Table { map, names }
+    }
+    pub fn kind(&self, n: &str) -> K {
+        *self.map.get(n).unwrap_or_else(|| panic!("unknown type {n}"))
+    }
+    fn fixed_size(&self, n: &str) -> Option<usize> {
+        if n == "byte" {
+            return Some(1);
+        }
+        match self.kind(n) {
+            K::Array(it, c) => self.fixed_size(it).map(|s| s * c),
+            K::Struct(fs) => fs.iter().map(|f| self.fixed_size(f)).sum(),
+            _ => None,
+        }
+    }
+}
+
+/// Which byte values a generated value may use for "enum-like" byte fields (JSON conversions
+/// `expect` valid hash_type / dep_type — those are the structurally valid values of the property).
+#[derive(Clone, Copy, PartialEq)]
+pub enum ByteMode {
+    Any,
+    JsonValid,
+}
+
+pub struct Gen<'a> {
+    pub t: &'a Table,
+    pub rng: &'a mut Rng,
+    pub budget: i64,
+    pub mode: ByteMode,
+    pub big: bool,
+}
+
+impl<'a> Gen<'a> {
+    fn rand_bytes(&mut self, n: usize) -> Vec<u8> {
+        match self.rng.below(8) {
+            0 => vec![0u8; n],
+            1 => vec![0xff; n],
+            2 => {
+                // numeric extreme / boundary in little endian
+                let mut v = vec![0u8; n];
+                if n > 0 {
+                    let k = self.rng.below(n as u64) as usize;
+                    v[k] = *self.rng.pick(&[1u8, 0x7f, 0x80, 0xff]);
+                }
+                v
+            }
+            _ => (0..n).map(|_| self.rng.next() as u8).collect(),
+        }
+    }
+    fn vec_len(&mut self, item_is_byte: bool) -> usize {
+        if self.budget <= 0 {
+            return 0;
+        }
+        let r = self.rng.below(100);
+        if item_is_byte {
+            match r {
+                0..=19 => 0,
+                20..=39 => self.rng.range(1, 4) as usize,
+                40..=79 => self.rng.range(5, 40) as usize,
+                80..=95 => self.rng.range(41, 300) as usize,
+                _ => {
+                    if self.big {
+                        self.rng.range(301, 70000) as usize
+                    } else {
+                        self.rng.range(301, 3000) as usize
+                    }
+                }
+            }
+        } else {
+            match r {
+                0..=24 => 0,
+                25..=54 => 1,
+                55..=79 => 2,
+                80..=92 => self.rng.range(3, 5) as usize,
+                _ => self.rng.range(6, if self.big { 40 } else { 12 }) as usize,
+            }
+        }
+    }
+    pub fn val(&mut self, name: &str, field: Option<&str>) -> Val {
+        if name == "byte" {
+            self.budget -= 1;
+            if self.mode == ByteMode::JsonValid {
+                match field {
+                    Some("hash_type") => {
+                        return Val::Byte(match self.rng.below(4) {
+                            0 => 0,
+                            1 => 1,
+                            2 => 2 * self.rng.range(1, 127) as u8,
+                            _ => *self.rng.pick(&[2u8, 4, 254]),
+                        });
+                    }
+                    Some("dep_type") => return Val::Byte(self.rng.below(2) as u8),
+                    _ => {}
+                }
+            }
+            return Val::Byte(self.rand_bytes(1)[0]);
+        }
+        match self.t.kind(name) {
+            K::Array(it, n) => {
+                if it == "byte" {
+                    self.budget -= n as i64;
+                    Val::Bytes(self.rand_bytes(n))
+                } else {
+                    Val::Seq((0..n).map(|_| self.val(it, None)).collect())
+                }
+            }
+            K::Struct(fs) | K::Table(fs) => {
+                self.budget -= 4 * fs.len() as i64;
+                let names = field_names(name);
+                Val::Seq(fs.iter().enumerate().map(|(i, f)| self.val(f, names.get(i).copied())).collect())
+            }
+            K::FixVec(it) | K::DynVec(it) => {
+                let n = self.vec_len(it == "byte");
+                if it == "byte" {
+                    self.budget -= n as i64;
+                    Val::Bytes(self.rand_bytes(n))
+                } else {
+                    Val::Seq((0..n).map(|_| self.val(it, None)).collect())
+                }
+            }
+            K::Option(it) => {
+                if self.budget <= 0 || self.rng.chance(1, 3) {
+                    Val::None
+                } else {
+                    Val::Some(Box::new(self.val(it, field)))
+                }
+            }
+            K::Union(items) => {
+                let (id, it) = *self.rng.pick(items);
+                Val::Union(id, Box::new(self.val(it, None)))
+            }
+        }
+    }
+}
+
+/// field names of the few tables/structs where a byte field is an enum in the JSON layer
+fn field_names(name: &str) -> Vec<&'static str> {
+    match name {
+        "Script" => vec!["code_hash", "hash_type", "args"],
+        "CellDep" => vec!["out_point", "dep_type"],
+        _ => vec![],
+    }
+}
+
+// ------------------------------------------------------------------------------------------------
+// schema-directed byte generators: valid encodings with extra table fields (compatible-only) and
+// with one structural corruption at a random node.  These only GENERATE inputs; both the real
+// readers and the model judge them.
+
+#[derive(Clone, Copy, PartialEq, Debug)]
+pub enum Mut {
+    None,
+    /// append extra fields to some tables (accepted only by `from_compatible_slice`)
+    Extra,
+    /// one structural corruption somewhere
+    Corrupt,
+}
+
+pub struct MutEnc<'a> {
+    pub t: &'a Table,
+    pub rng: &'a mut Rng,
+    pub mode: Mut,
+    /// nodes still to skip before the corruption is applied
+    pub countdown: i64,
+    pub applied: Vec<&'static str>,
+}
+
+fn le32(n: usize) -> [u8; 4] {
+    (n as u32).to_le_bytes()
+}
+
+impl<'a> MutEnc<'a> {
+    fn hit(&mut self) -> bool {
+        if self.mode != Mut::Corrupt {
+            return false;
+        }
+        self.countdown -= 1;
+        self.countdown == -1
+    }
+    fn dyn_layout(&mut self, mut items: Vec<Vec<u8>>, is_table: bool) -> Vec<u8> {
+        if is_table && self.mode == Mut::Extra && self.rng.chance(1, 3) {
+            let k = self.rng.range(1, 2);
+            for _ in 0..k {
+                let n = self.rng.below(6) as usize;
+                items.push((0..n).map(|_| self.rng.next() as u8).collect());
+            }
+            self.applied.push("extra-field");
+        }
+        if items.is_empty() {
+            if self.hit() {
+                self.applied.push("empty-dyn-total");
+                return le32(*self.rng.pick(&[0usize, 3, 5, 8])).to_vec();
+            }
+            return le32(4).to_vec();
+        }
+        let hdr = 4 * (items.len() + 1);
+        let mut offsets = vec![];
+        let mut pos = hdr;
+        for it in &items {
+            offsets.push(pos);
+            pos += it.len();
+        }
+        let mut total = pos;
+        let mut body: Vec<u8> = items.concat();
+        if self.hit() {
+            let k = self.rng.below(offsets.len() as u64) as usize;
+            match self.rng.below(9) {
+                0 => {
+                    offsets[k] += 1;
+                    self.applied.push("offset+1");
+                }
+                1 => {
+                    offsets[k] = offsets[k].wrapping_sub(1);
+                    self.applied.push("offset-1");
+                }
+                2 => {
+                    total += 1;
+                    self.applied.push("total+1");
+                }
+                3 => {
+                    total -= 1;
+                    self.applied.push("total-1");
+                }
+                4 => {
+                    body.pop();
+                    self.applied.push("body-short");
+                }
+                5 => {
+                    body.push(self.rng.next() as u8);
+                    total += 1;
+                    self.applied.push("body-long-consistent");
+                }
+                6 => {
+                    if offsets.len() >= 2 {
+                        offsets.swap(0, 1);
+                    } else {
+                        offsets[0] = total + 4;
+                    }
+                    self.applied.push("offsets-disorder");
+                }
+                7 => {
+                    // drop the last offset entry but keep its bytes: first offset no longer 4*(n+1)
+                    offsets.pop();
+                    self.applied.push("offset-entry-dropped");
+                }
+                _ => {
+                    offsets[0] = *self.rng.pick(&[0usize, 4, 6, 7, 9, total + 8]);
+                    self.applied.push("first-offset");
+                }
+            }
+        }
+        let mut out = le32(total).to_vec();
+        for o in offsets {
+            out.extend_from_slice(&le32(o));
+        }
+        out.extend_from_slice(&body);
+        out
+    }
+    pub fn enc(&mut self, name: &str, v: &Val) -> Vec<u8> {
+        if name == "byte" {
+            return vec![v.byte()];
+        }
+        match self.t.kind(name) {
+            K::Array(it, _) => {
+                let mut out = if it == "byte" { v.bytes() } else { v.seq().iter().flat_map(|x| self.enc(it, x)).collect() };
+                if self.hit() {
+                    if self.rng.chance(1, 2) {
+                        out.pop();
+                    } else {
+                        out.push(0);
+                    }
+                    self.applied.push("array-size");
+                }
+                out
+            }
+            K::Struct(fs) => {
+                let mut out: Vec<u8> = fs.iter().zip(v.seq()).flat_map(|(f, x)| self.enc(f, x)).collect();
+                if self.hit() {
+                    if self.rng.chance(1, 2) {
+                        out.pop();
+                    } else {
+                        out.push(0);
+                    }
+                    self.applied.push("struct-size");
+                }
+                out
+            }
+            K::FixVec(it) => {
+                let (mut count, mut body): (usize, Vec<u8>) = if it == "byte" {
+                    let b = v.bytes();
+                    (b.len(), b)
+                } else {
+                    let items = v.seq();
+                    (items.len(), items.iter().flat_map(|x| self.enc(it, x)).collect())
+                };
+                if self.hit() {
+                    match self.rng.below(4) {
+                        0 => count += 1,
+                        1 => count = count.wrapping_sub(1),
+                        2 => {
+                            body.pop();
+                        }
+                        _ => body.push(7),
+                    }
+                    self.applied.push("fixvec-count");
+                }
+                let mut out = le32(count).to_vec();
+                out.extend_from_slice(&body);
+                out
+            }
+            K::DynVec(it) => {
+                let items: Vec<Vec<u8>> = v.seq().iter().map(|x| self.enc(it, x)).collect();
+                self.dyn_layout(items, false)
+            }
+            K::Table(fs) => {
+                let items: Vec<Vec<u8>> = fs.iter().zip(v.seq()).map(|(f, x)| self.enc(f, x)).collect();
+                self.dyn_layout(items, true)
+            }
+            K::Option(it) => match v {
+                Val::None => {
+                    if self.hit() {
+                        self.applied.push("option-garbage");
+                        vec![0]
+                    } else {
+                        vec![]
+                    }
+                }
+                Val::Some(x) => self.enc(it, x),
+                _ => panic!("option value"),
+            },
+            K::Union(items) => match v {
+                Val::Union(id, x) => {
+                    let it = items.iter().find(|(i, _)| i == id).expect("union id").1;
+                    let mut id = *id;
+                    if self.hit() {
+                        id = *self.rng.pick(&[id + 1, 255, u32::MAX, items.len() as u32 + 8]);
+                        self.applied.push("union-id");
+                    }
+                    let mut out = id.to_le_bytes().to_vec();
+                    out.extend_from_slice(&self.enc(it, x));
+                    out
+                }
+                _ => panic!("union value"),
+            },
+        }
+    }
+}
+
+fn count_nodes(t: &Table, name: &str, v: &Val) -> i64 {
+    if name == "byte" {
+        return 0;
+    }
+    1 + match (t.kind(name), v) {
+        (K::Array(it, _), Val::Seq(s)) | (K::FixVec(it), Val::Seq(s)) | (K::DynVec(it), Val::Seq(s)) => s.iter().map(|x| count_nodes(t, it, x)).sum(),
+        (K::Struct(fs), Val::Seq(s)) | (K::Table(fs), Val::Seq(s)) => fs.iter().zip(s).map(|(f, x)| count_nodes(t, f, x)).sum(),
+        (K::Option(it), Val::Some(x)) => count_nodes(t, it, x),
+        (K::Union(items), Val::Union(id, x)) => count_nodes(t, items.iter().find(|(i, _)| i == id).unwrap().1, x),
+        _ => 0,
+    }
+}
+
+/// decode through the real code, panics caught: Ok(Some(v)) accepted, Ok(None) rejected, Err = panic
+pub fn real_decode(name: &str, bs: &[u8], compat: bool) -> Result<Option<Val>, String> {
+    match catch_unwind(AssertUnwindSafe(|| glue::decode(name, bs, compat).expect("known type"))) {
+        Ok(Ok(v)) => Ok(Some(v)),
+        Ok(Err(())) => Ok(None),
+        Err(e) => Err(panic_text(e)),
+    }
+}
+
+pub fn panic_text(e: Box<dyn std::any::Any + Send>) -> String {
+    if let Some(s) = e.downcast_ref::<&str>() {
+        s.to_string()
+    } else if let Some(s) = e.downcast_ref::<String>() {
+        s.clone()
+    } else {
+        "panic".into()
+    }
+}
+
+const MAIN_TYPES: &[&str] = &[
+    "Script", "OutPoint", "CellInput", "CellOutput", "CellDep", "RawTransaction", "Transaction", "RawHeader", "Header", "UncleBlock",
+    "Block", "BlockV1", "CellbaseWitness", "WitnessArgs", "ProposalShortIdVec", "CompactBlock", "CompactBlockV1", "SyncMessage",
+    "RelayMessage", "BlockFilterMessage", "LightClientMessage", "BlockExtV1", "TransactionView", "CellEntry", "HeaderView", "EpochExt",
+    "PingMessage", "DiscoveryMessage", "IdentifyMessage", "HolePunchingMessage", "Alert",
+];
+
+fn dec_op(out: &mut Out, name: &str, compat: bool, bs: &[u8]) -> Option<Val> {
+    let op = format!("dec {} {} {}", name, if compat { "c" } else { "s" }, hex(bs));
+    match real_decode(name, bs, compat) {
+        Ok(Some(v)) => {
+            out.op(&op, &format!("ok {}", v));
+            out.count(if compat { "dec-compat-accept" } else { "dec-strict-accept" });
+            Some(v)
+        }
+        Ok(None) => {
+            out.op(&op, "err");
+            out.count(if compat { "dec-compat-reject" } else { "dec-strict-reject" });
+            None
+        }
+        Err(p) => {
+            out.op(&op, "panic");
+            out.oracle_fail("reader-panic", &format!("{} mode={} bytes={} panic={}", name, if compat { "c" } else { "s" }, hex(bs), p));
+            None
+        }
+    }
+}
+
+/// strict + compatible decode of one byte string, with the implementation-only oracles
+fn dec_both(out: &mut Out, name: &str, bs: &[u8]) -> (Option<Val>, Option<Val>) {
+    let s = dec_op(out, name, false, bs);
+    let c = dec_op(out, name, true, bs);
+    if let Some(sv) = &s {
+        // canonical: rebuilding field by field reproduces the bytes
+        match catch_unwind(AssertUnwindSafe(|| glue::rebuild(name, bs))) {
+            Ok(Some(rb)) => {
+                if rb != bs {
+                    out.oracle_fail("rebuild", &format!("{} strict-accepted bytes {} rebuild to {}", name, hex(bs), hex(&rb)));
+                }
+            }
+            _ => out.oracle_fail("rebuild", &format!("{} strict-accepted bytes {} cannot be rebuilt", name, hex(bs))),
+        }
+        match &c {
+            Some(cv) if cv == sv => {}
+            _ => out.oracle_fail("compat-extends", &format!("{} strict accepts {} but compatible mode differs", name, hex(bs))),
+        }
+    }
+    (s, c)
+}
+
+fn mol_case(out: &mut Out, t: &Table, rng: &mut Rng, name: &str, big: bool) {
+    out.begin_case(name);
+    let v = {
+        let mut g = Gen { t, rng, budget: if big { 60000 } else { 1500 }, mode: ByteMode::Any, big };
+        g.val(name, None)
+    };
+    let vs = v.to_string();
+    let bytes = match catch_unwind(AssertUnwindSafe(|| glue::encode(name, &v).expect("known type"))) {
+        Ok(b) => b,
+        Err(e) => {
+            out.op(&format!("enc {} {}", name, vs), "panic");
+            out.oracle_fail("builder-panic", &format!("{} {}", name, panic_text(e)));
+            return;
+        }
+    };
+    out.op(&format!("enc {} {}", name, vs), &hex(&bytes));
+    out.count("enc");
+    // round trip
+    let (s, _c) = dec_both(out, name, &bytes);
+    match s {
+        Some(rv) if rv.to_string() == vs => {}
+        _ => out.oracle_fail("roundtrip", &format!("{} value {} does not read back from its own encoding", name, vs)),
+    }
+    out.nontrivial(format!("{}:{}", name, bytes.len().min(64)));
+    // compatible-only encodings (extra table fields at random depths)
+    let nodes = count_nodes(t, name, &v);
+    for _ in 0..2 {
+        let mut m = MutEnc { t, rng, mode: Mut::Extra, countdown: 0, applied: vec![] };
+        let b = m.enc(name, &v);
+        let applied = !m.applied.is_empty();
+        if applied {
+            out.count("mut-extra");
+            dec_both(out, name, &b);
+        }
+    }
+    // one structural corruption at a random node
+    for _ in 0..4 {
+        let cd = rng.below(nodes.max(1) as u64) as i64;
+        let mut m = MutEnc { t, rng, mode: Mut::Corrupt, countdown: cd, applied: vec![] };
+        let b = m.enc(name, &v);
+        for a in m.applied.clone() {
+            out.count(&format!("mut-{}", a));
+        }
+        dec_both(out, name, &b);
+    }
+    // byte-level mutations
+    for _ in 0..3 {
+        let mut b = bytes.clone();
+        match rng.below(5) {
+            0 if !b.is_empty() => {
+                let k = rng.below(b.len().min(48) as u64) as usize;
+                b[k] ^= 1 << rng.below(8);
+                out.count("mut-bitflip-head");
+            }
+            1 if !b.is_empty() => {
+                let k = rng.below(b.len() as u64) as usize;
+                b[k] = rng.next() as u8;
+                out.count("mut-byte-any");
+            }
+            2 if !b.is_empty() => {
+                let k = rng.below(b.len() as u64) as usize;
+                b.truncate(k);
+                out.count("mut-truncate");
+            }
+            3 => {
+                b.push(rng.next() as u8);
+                out.count("mut-append");
+            }
+            _ => {
+                // random bytes with a plausible total-size header
+                let n = rng.range(0, 24) as usize;
+                b = (0..n).map(|_| rng.next() as u8).collect();
+                if n >= 4 && rng.chance(2, 3) {
+                    b[..4].copy_from_slice(&le32(n));
+                }
+                if n >= 8 && rng.chance(1, 2) {
+                    let f = 4 * rng.range(2, 4) as usize;
+                    b[4..8].copy_from_slice(&le32(f));
+                }
+                out.count("mut-random");
+            }
+        }
+        dec_both(out, name, &b);
+    }
+}
+
+fn run_mol(opts: &Opts, out: &mut Out) {
+    let t = Table::new();
+    let mut rng = Rng::new(opts.seed);
+    // every declared type at least twice, then the main types repeatedly
+    let rounds = if opts.thorough() { 60 } else { 4 } * opts.scale;
+    for n in t.names.clone() {
+        for _ in 0..2 {
+            mol_case(out, &t, &mut rng, n, false);
+        }
+    }
+    for r in 0..rounds {
+        for n in MAIN_TYPES {
+            mol_case(out, &t, &mut rng, n, opts.thorough() && r % 10 == 9);
+        }
+        let n = *rng.pick(&t.names);
+        mol_case(out, &t, &mut rng, n, false);
+    }
+}
+
+// ------------------------------------------------------------------------------------------------
+// JSON
+
+use ckb_jsonrpc_types as json;
+use ckb_types::packed;
+use ckb_types::prelude::*;
+
+macro_rules! json_identity {
+    ($out:expr, $name:expr, $ty:ident, $jty:ty, $bytes:expr) => {{
+        let r = catch_unwind(AssertUnwindSafe(|| {
+            let p = packed::$ty::from_slice($bytes).expect("own encoding");
+            let j: $jty = p.clone().into();
+            let s = serde_json::to_string(&j).expect("to_string");
+            let j2: $jty = serde_json::from_str(&s).expect("from_str");
+            let s2 = serde_json::to_string(&j2).expect("to_string");
+            let p2: packed::$ty = j2.into();
+            (p.as_slice().to_vec(), p2.as_slice().to_vec(), s, s2)
+        }));
+        match r {
+            Ok((a, b, s, s2)) => {
+                if a != b {
+                    $out.oracle_fail("json-identity", &format!("{} packed->json->packed changed the bytes: {} -> {} via {}", $name, hex(&a), hex(&b), s));
+                }
+                if s != s2 {
+                    $out.oracle_fail("json-serde", &format!("{} serde round trip changed the text: {} -> {}", $name, s, s2));
+                }
+                $out.count(&format!("json-{}", $name));
+            }
+            Err(e) => $out.oracle_fail("json-panic", &format!("{} {} bytes={}", $name, panic_text(e), hex($bytes))),
+        }
+    }};
+}
+
+fn json_struct_case(out: &mut Out, t: &Table, rng: &mut Rng, name: &str) {
+    let v = {
+        let mut g = Gen { t, rng, budget: 1200, mode: ByteMode::JsonValid, big: false };
+        g.val(name, None)
+    };
+    let bytes = glue::encode(name, &v).expect("known type");
+    match name {
+        "Script" => json_identity!(out, name, Script, json::Script, &bytes),
+        "OutPoint" => json_identity!(out, name, OutPoint, json::OutPoint, &bytes),
+        "CellInput" => json_identity!(out, name, CellInput, json::CellInput, &bytes),
+        "CellOutput" => json_identity!(out, name, CellOutput, json::CellOutput, &bytes),
+        "CellDep" => json_identity!(out, name, CellDep, json::CellDep, &bytes),
+        "Transaction" => json_identity!(out, name, Transaction, json::Transaction, &bytes),
+        "Header" => json_identity!(out, name, Header, json::Header, &bytes),
+        "UncleBlock" => json_identity!(out, name, UncleBlock, json::UncleBlock, &bytes),
+        "Block" => json_identity!(out, name, Block, json::Block, &bytes),
+        "BlockV1" => {
+            // a BlockV1 is carried as a compatible Block with one extra field
+            let r = catch_unwind(AssertUnwindSafe(|| {
+                let p = packed::BlockV1::from_slice(&bytes).expect("own encoding").as_v0();
+                let j: json::Block = p.clone().into();
+                let s = serde_json::to_string(&j).unwrap();
+                let j2: json::Block = serde_json::from_str(&s).unwrap();
+                let p2: packed::Block = j2.into();
+                (p.as_slice().to_vec(), p2.as_slice().to_vec(), s)
+            }));
+            match r {
+                Ok((a, b, s)) => {
+                    if a != b {
+                        out.oracle_fail("json-identity", &format!("BlockV1 packed->json->packed changed the bytes: {} -> {} via {}", hex(&a), hex(&b), s));
+                    }
+                    out.count("json-BlockV1");
+                }
+                Err(e) => out.oracle_fail("json-panic", &format!("BlockV1 {}", panic_text(e))),
+            }
+        }
+        _ => panic!("no json type for {name}"),
+    }
+    // views: TransactionView / HeaderView / BlockView json carry the hash too
+    if name == "Transaction" {
+        let p = packed::Transaction::from_slice(&bytes).unwrap();
+        let view = p.clone().into_view();
+        let j: json::TransactionView = view.clone().into();
+        let s = serde_json::to_string(&j).unwrap();
+        let j2: json::TransactionView = serde_json::from_str(&s).unwrap();
+        let back: packed::Transaction = j2.inner.clone().into();
+        if back.as_slice() != p.as_slice() || j2.hash.as_bytes() != view.hash().as_slice() {
+            out.oracle_fail("json-identity", &format!("TransactionView json round trip differs for {}", hex(&bytes)));
+        }
+        out.count("json-TransactionView");
+    }
+    if name == "Block" {
+        let p = packed::Block::from_slice(&bytes).unwrap();
+        let view = p.clone().into_view();
+        let j: json::BlockView = view.clone().into();
+        let s = serde_json::to_string(&j).unwrap();
+        let j2: json::BlockView = serde_json::from_str(&s).unwrap();
+        let back: ckb_types::core::BlockView = j2.into();
+        if back.data().as_slice() != p.as_slice() || back.hash() != view.hash() {
+            out.oracle_fail("json-identity", &format!("BlockView json round trip differs for {}", hex(&bytes)));
+        }
+        out.count("json-BlockView");
+    }
+}
+
+fn json_uint_ops(out: &mut Out, rng: &mut Rng) {
+    for bits in [32u32, 64, 128] {
+        let max: u128 = if bits == 128 { u128::MAX } else { (1u128 << bits) - 1 };
+        let mut ns: Vec<u128> = vec![0, 1, 9, 10, 15, 16, 255, 256, max, max - 1, max / 2, max / 2 + 1, 1u128 << (bits - 1)];
+        for _ in 0..6 {
+            let sh = rng.below(bits as u64) as u32;
+            ns.push(((rng.next() as u128) << 64 | rng.next() as u128) & max >> sh);
+        }
+        for n in ns {
+            let s = match bits {
+                32 => serde_json::to_string(&json::Uint32::from(n as u32)).unwrap(),
+                64 => serde_json::to_string(&json::Uint64::from(n as u64)).unwrap(),
+                _ => serde_json::to_string(&json::Uint128::from(n)).unwrap(),
+            };
+            let inner = s.trim_matches('"').to_string();
+            out.op(&format!("ju {} {}", bits, n), &inner);
+            // parse back (identity oracle)
+            let back: Option<u128> = match bits {
+                32 => serde_json::from_str::<json::Uint32>(&s).ok().map(|x| x.value() as u128),
+                64 => serde_json::from_str::<json::Uint64>(&s).ok().map(|x| x.value() as u128),
+                _ => serde_json::from_str::<json::Uint128>(&s).ok().map(|x| x.value()),
+            };
+            if back != Some(n) {
+                out.oracle_fail("json-uint", &format!("Uint{} {} -> {} -> {:?}", bits, n, s, back));
+            }
+            out.count("ju");
+        }
+        // parse side: canonical, non-canonical and malformed strings
+        let mut strs: Vec<String> = vec![
+            "0x0".into(), "0x".into(), "0".into(), "".into(), "0x00".into(), "0x01".into(), "0x1".into(), "0X1".into(), "1".into(), "0xg".into(),
+            "0x+1".into(), "0x+".into(), "0x-1".into(), "0x+0".into(), "0x+01".into(), "0xAB".into(), "0xab".into(), "0x1_0".into(),
+            format!("0x{:x}", max), format!("0x1{:x}", max), format!("0x{:x}0", max), format!("0x{:x}", max as u128 / 16),
+            "0xffffffff".into(), "0x100000000".into(), "0xffffffffffffffff".into(), "0x10000000000000000".into(),
+        ];
+        for _ in 0..8 {
+            let n = rng.next() as u128 & max;
+            let mut s = format!("0x{:x}", n);
+            if rng.chance(1, 3) {
+                let k = rng.below(s.len() as u64) as usize;
+                let c = *rng.pick(&['0', 'F', 'g', '+', 'x', 'a']);
+                s.insert(k, c);
+            }
+            strs.push(s);
+        }
+        for s in strs {
+            if s.is_empty() || s.contains(' ') {
+                continue;
+            }
+            let js = format!("\"{}\"", s);
+            let r: Option<u128> = match bits {
+                32 => serde_json::from_str::<json::Uint32>(&js).ok().map(|x| x.value() as u128),
+                64 => serde_json::from_str::<json::Uint64>(&js).ok().map(|x| x.value() as u128),
+                _ => serde_json::from_str::<json::Uint128>(&js).ok().map(|x| x.value()),
+            };
+            out.op(&format!("jp {} {}", bits, s), &match r {
+                Some(n) => format!("ok {}", n),
+                None => "err".into(),
+            });
+            out.count(if r.is_some() { "jp-ok" } else { "jp-err" });
+        }
+    }
+}
+
+fn json_bytes_ops(out: &mut Out, rng: &mut Rng) {
+    for len in [0usize, 1, 2, 3, 31, 32, 33, 100] {
+        let b: Vec<u8> = (0..len).map(|_| rng.next() as u8).collect();
+        let s = serde_json::to_string(&json::JsonBytes::from_vec(b.clone())).unwrap();
+        out.op(&format!("jb {}", hex(&b)), s.trim_matches('"'));
+        let back: json::JsonBytes = serde_json::from_str(&s).unwrap();
+        if back.as_bytes() != &b[..] {
+            out.oracle_fail("json-bytes", &format!("{} -> {} -> {}", hex(&b), s, hex(back.as_bytes())));
+        }
+        out.count("jb");
+    }
+    let mut strs: Vec<String> = vec!["0x".into(), "0x0".into(), "0x00".into(), "00".into(), "0xAB".into(), "0xab".into(), "0xaB".into(), "0xgg".into(), "0x0g".into(), "x".into(), "0".into(), "0X00".into(), "0x000".into()];
+    for _ in 0..10 {
+        let n = rng.below(6) as usize;
+        let mut s = String::from("0x");
+        for _ in 0..n {
+            s.push(*rng.pick(&['0', '1', '9', 'a', 'f', 'A', 'F', 'g', 'x']));
+        }
+        strs.push(s);
+    }
+    for s in strs {
+        let js = format!("\"{}\"", s);
+        let r = serde_json::from_str::<json::JsonBytes>(&js).ok();
+        out.op(&format!("jq {}", s), &match &r {
+            Some(b) => format!("ok {}", hex(b.as_bytes())),
+            None => "err".into(),
+        });
+        out.count(if r.is_some() { "jq-ok" } else { "jq-err" });
+    }
+}
+
+fn run_json(opts: &Opts, out: &mut Out) {
+    let t = Table::new();
+    let mut rng = Rng::new(opts.seed ^ 0x6a736f6e);
+    let rounds = if opts.thorough() { 200 } else { 12 } * opts.scale;
+    for r in 0..rounds {
+        out.begin_case("json");
+        if r < 3 || r % 10 == 0 {
+            json_uint_ops(out, &mut rng);
+            json_bytes_ops(out, &mut rng);
+        }
+        for n in ["Script", "OutPoint", "CellInput", "CellOutput", "CellDep", "Transaction", "Header", "UncleBlock", "Block", "BlockV1"] {
+            json_struct_case(out, &t, &mut rng, n);
+        }
+        // keep the line protocol non-empty for every case
+        let n = rng.next() & 0xffff_ffff;
+        out.op(&format!("ju 32 {}", n), &format!("0x{:x}", json::Uint32::from(n as u32).value()));
+        out.nontrivial(format!("json-{}", r));
+    }
+}
+
+// ------------------------------------------------------------------------------------------------
+// hashes
+
+fn b2(data: &[u8]) -> [u8; 32] {
+    ckb_hash::blake2b_256(data)
+}
+
+/// independent complete-binary-merkle-tree root (util/types/src/utilities/merkle_tree.rs uses merkle-cbt)
+fn cbmt_root(leaves: &[[u8; 32]]) -> [u8; 32] {
+    let n = leaves.len();
+    if n == 0 {
+        return [0u8; 32];
+    }
+    let mut nodes = vec![[0u8; 32]; 2 * n - 1];
+    nodes[n - 1..].copy_from_slice(leaves);
+    for i in (0..n - 1).rev() {
+        let mut cat = nodes[2 * i + 1].to_vec();
+        cat.extend_from_slice(&nodes[2 * i + 2]);
+        nodes[i] = b2(&cat);
+    }
+    nodes[0]
+}
+
+fn pre_op(out: &mut Out, what: &str, bytes: &[u8], preimage: &[u8], real_hash: &[u8]) {
+    let ans = if b2(preimage)[..] == real_hash[..] { hex(preimage) } else { "mismatch".into() };
+    if ans == "mismatch" {
+        out.oracle_fail(&format!("hash-{}", what), &format!("blake2b of the documented pre-image differs from the real hash for {}", hex(bytes)));
+    }
+    out.op(&format!("pre {} {}", what, hex(bytes)), &ans);
+    out.count(&format!("pre-{}", what));
+}
+
+fn gen_packed<T: Entity>(t: &Table, rng: &mut Rng, name: &str, budget: i64) -> T {
+    let v = {
+        let mut g = Gen { t, rng, budget, mode: ByteMode::Any, big: false };
+        g.val(name, None)
+    };
+    T::from_slice(&glue::encode(name, &v).unwrap()).expect("own encoding")
+}
+
+fn hash_case(out: &mut Out, t: &Table, rng: &mut Rng) {
+    out.begin_case("hash");
+    // --- transaction
+    let tx: packed::Transaction = gen_packed(t, rng, "Transaction", 600);
+    let view = tx.clone().into_view();
+    if view.hash() != tx.calc_tx_hash() || view.witness_hash() != tx.calc_witness_hash() {
+        out.oracle_fail("hash-cached", "TransactionView cached hashes differ from recomputation");
+    }
+    pre_op(out, "tx", tx.as_slice(), tx.raw().as_slice(), view.hash().as_slice());
+    pre_op(out, "wtx", tx.as_slice(), tx.as_slice(), view.witness_hash().as_slice());
+    // witnesses changed: tx hash equal, witness hash different
+    let extra_w: packed::Bytes = gen_packed(t, rng, "Bytes", 40);
+    let tx_w = tx.clone().as_builder().witnesses(tx.witnesses().as_builder().push(extra_w).build()).build();
+    let view_w = tx_w.clone().into_view();
+    if view_w.hash() != view.hash() {
+        out.oracle_fail("hash-tx-covers-witness", &format!("tx hash changed with witnesses only: {}", hex(tx_w.as_slice())));
+    }
+    if view_w.witness_hash() == view.witness_hash() {
+        out.oracle_fail("hash-witness-ignores-witness", &format!("witness hash unchanged after adding a witness: {}", hex(tx_w.as_slice())));
+    }
+    // each raw field changed: tx hash must change
+    let raw = tx.raw();
+    let variants: Vec<(&str, packed::RawTransaction)> = vec![
+        ("version", raw.clone().as_builder().version({ let v: u32 = raw.version().into(); v.wrapping_add(1) }).build()),
+        ("cell_deps", raw.clone().as_builder().cell_deps(raw.cell_deps().as_builder().push(gen_packed::<packed::CellDep>(t, rng, "CellDep", 50)).build()).build()),
+        ("header_deps", raw.clone().as_builder().header_deps(raw.header_deps().as_builder().push(gen_packed::<packed::Byte32>(t, rng, "Byte32", 50)).build()).build()),
+        ("inputs", raw.clone().as_builder().inputs(raw.inputs().as_builder().push(gen_packed::<packed::CellInput>(t, rng, "CellInput", 50)).build()).build()),
+        ("outputs", raw.clone().as_builder().outputs(raw.outputs().as_builder().push(gen_packed::<packed::CellOutput>(t, rng, "CellOutput", 80)).build()).build()),
+        ("outputs_data", raw.clone().as_builder().outputs_data(raw.outputs_data().as_builder().push(gen_packed::<packed::Bytes>(t, rng, "Bytes", 30)).build()).build()),
+    ];
+    for (f, r2) in variants {
+        let tx2 = tx.clone().as_builder().raw(r2).build();
+        if tx2.clone().into_view().hash() == view.hash() {
+            out.oracle_fail("hash-tx-misses-field", &format!("tx hash unchanged after changing raw.{}: {}", f, hex(tx2.as_slice())));
+        }
+        out.count("tx-field-mutation");
+    }
+    // --- header
+    let header: packed::Header = gen_packed(t, rng, "Header", 300);
+    let hv = header.clone().into_view();
+    if hv.hash() != header.calc_header_hash() {
+        out.oracle_fail("hash-cached", "HeaderView cached hash differs from recomputation");
+    }
+    pre_op(out, "hdr", header.as_slice(), header.as_slice(), hv.hash().as_slice());
+    pre_op(out, "pow", header.as_slice(), header.raw().as_slice(), header.calc_pow_hash().as_slice());
+    // --- block
+    let with_ext = rng.chance(1, 2);
+    let blk: packed::Block = if with_ext {
+        gen_packed::<packed::BlockV1>(t, rng, "BlockV1", 2500).as_v0()
+    } else {
+        gen_packed(t, rng, "Block", 2500)
+    };
+    let bv = blk.clone().into_view();
+    let txs: Vec<packed::Transaction> = blk.transactions().into_iter().collect();
+    let th: Vec<[u8; 32]> = txs.iter().map(|x| b2(x.raw().as_slice())).collect();
+    let wh: Vec<[u8; 32]> = txs.iter().map(|x| b2(x.as_slice())).collect();
+    let cached_ok = bv.tx_hashes().iter().map(|h| h.as_slice().to_vec()).collect::<Vec<_>>() == th.iter().map(|h| h.to_vec()).collect::<Vec<_>>()
+        && bv.tx_witness_hashes().iter().map(|h| h.as_slice().to_vec()).collect::<Vec<_>>() == wh.iter().map(|h| h.to_vec()).collect::<Vec<_>>()
+        && bv.hash().as_slice() == &b2(blk.header().as_slice())[..];
+    if !cached_ok {
+        out.oracle_fail("hash-cached", &format!("BlockView cached hashes differ from recomputation: {}", hex(blk.as_slice())));
+    }
+    let root = cbmt_root(&[cbmt_root(&th), cbmt_root(&wh)]);
+    if bv.calc_transactions_root().as_slice() != &root[..] {
+        out.oracle_fail("hash-txroot", &format!("transactions_root differs from CBMT(CBMT(tx hashes), CBMT(witness hashes)): {}", hex(blk.as_slice())));
+    }
+    out.count("block-root");
+    // order: swap two transactions with different content
+    if txs.len() >= 2 {
+        let i = rng.below(txs.len() as u64) as usize;
+        let j = (i + 1 + rng.below(txs.len() as u64 - 1) as usize) % txs.len();
+        if txs[i].as_slice() != txs[j].as_slice() {
+            let mut t2 = txs.clone();
+            t2.swap(i, j);
+            let b2v = blk.clone().as_builder().transactions(t2).build().into_view();
+            if b2v.calc_transactions_root() == bv.calc_transactions_root() {
+                out.oracle_fail("hash-txroot-order", &format!("transactions_root unchanged after swapping tx {} and {}: {}", i, j, hex(blk.as_slice())));
+            }
+            out.count("block-root-swap");
+        }
+    }
+    // witness change in one tx changes the root
+    if !txs.is_empty() {
+        let i = rng.below(txs.len() as u64) as usize;
+        let mut t2 = txs.clone();
+        let w: packed::Bytes = gen_packed(t, rng, "Bytes", 20);
+        t2[i] = t2[i].clone().as_builder().witnesses(t2[i].witnesses().as_builder().push(w).build()).build();
+        let b2v = blk.clone().as_builder().transactions(t2).build().into_view();
+        if b2v.calc_transactions_root() == bv.calc_transactions_root() {
+            out.oracle_fail("hash-txroot-witness", &format!("transactions_root unchanged after changing a witness of tx {}: {}", i, hex(blk.as_slice())));
+        }
+        out.count("block-root-witness");
+    }
+    // proposals hash
+    let props: Vec<u8> = blk.proposals().into_iter().flat_map(|p| p.as_slice().to_vec()).collect();
+    let ph = if blk.proposals().is_empty() { [0u8; 32] } else { b2(&props) };
+    if bv.calc_proposals_hash().as_slice() != &ph[..] {
+        out.oracle_fail("hash-proposals", &format!("proposals hash differs from blake2b(concat ids): {}", hex(blk.as_slice())));
+    }
+    let p_extra: packed::ProposalShortId = gen_packed(t, rng, "ProposalShortId", 20);
+    let b3 = blk.clone().as_builder().proposals(blk.proposals().as_builder().push(p_extra).build()).build();
+    if b3.calc_proposals_hash() == blk.calc_proposals_hash() {
+        out.oracle_fail("hash-proposals", "proposals hash unchanged after adding a proposal");
+    }
+    // uncles hash / extra hash
+    let uh: Vec<u8> = blk.uncles().into_iter().flat_map(|u| b2(u.header().as_slice()).to_vec()).collect();
+    let uncles_hash = if blk.uncles().is_empty() { [0u8; 32] } else { b2(&uh) };
+    let expected_extra = match blk.extension() {
+        None => uncles_hash,
+        Some(ext) => {
+            let mut cat = uncles_hash.to_vec();
+            cat.extend_from_slice(&b2(&ext.raw_data()));
+            b2(&cat)
+        }
+    };
+    if bv.calc_uncles_hash().as_slice() != &uncles_hash[..] || bv.calc_extra_hash().extra_hash().as_slice() != &expected_extra[..] {
+        out.oracle_fail("hash-extra", &format!("uncles/extra hash differs from recomputation: {}", hex(blk.as_slice())));
+    }
+    if with_ext != blk.extension().is_some() {
+        out.oracle_fail("hash-extra", "extension presence lost");
+    }
+    out.count(if with_ext { "block-extra-with-extension" } else { "block-extra-no-extension" });
+    out.nontrivial(format!("hash-{}-{}", txs.len(), blk.uncles().len()));
+}
+
+fn run_hash(opts: &Opts, out: &mut Out) {
+    let t = Table::new();
+    let mut rng = Rng::new(opts.seed ^ 0x68617368);
+    let rounds = if opts.thorough() { 600 } else { 40 } * opts.scale;
+    for _ in 0..rounds {
+        hash_case(out, &t, &mut rng);
+    }
+}
+
+// ------------------------------------------------------------------------------------------------
+
+fn replay(opts: &Opts, out: &mut Out, path: &std::path::Path) {
+    for l in read_replay_ops(path) {
+        let ts: Vec<&str> = l.split(' ').collect();
+        match ts[0] {
+            "case" => {
+                out.begin_case(&ts[2..].join(" "));
+            }
+            "enc" => {
+                let v = Val::parse(ts[2]);
+                let b = glue::encode(ts[1], &v).expect("known type");
+                out.op(&l, &hex(&b));
+                let (s, _) = (real_decode(ts[1], &b, false), ());
+                match s {
+                    Ok(Some(rv)) if rv.to_string() == v.to_string() => {}
+                    _ => out.oracle_fail("roundtrip", &format!("{} value {} does not read back", ts[1], ts[2])),
+                }
+            }
+            "dec" => {
+                let bs = unhex(ts[3]);
+                let compat = ts[2] == "c";
+                // replayed `dec` lines carry the oracles of dec_both on their own
+                let r = real_decode(ts[1], &bs, compat);
+                match &r {
+                    Ok(Some(v)) => out.op(&l, &format!("ok {}", v)),
+                    Ok(None) => out.op(&l, "err"),
+                    Err(p) => {
+                        out.op(&l, "panic");
+                        out.oracle_fail("reader-panic", &format!("{} {}", ts[1], p));
+                    }
+                }
+                if !compat {
+                    if let Ok(Some(sv)) = &r {
+                        if glue::rebuild(ts[1], &bs).as_deref() != Some(&bs[..]) {
+                            out.oracle_fail("rebuild", &format!("{} strict-accepted bytes {} do not rebuild", ts[1], ts[3]));
+                        }
+                        match real_decode(ts[1], &bs, true) {
+                            Ok(Some(cv)) if &cv == sv => {}
+                            _ => out.oracle_fail("compat-extends", &format!("{} {}", ts[1], ts[3])),
+                        }
+                    }
+                }
+            }
+            "pre" => {
+                let bs = unhex(ts[2]);
+                let ans = match ts[1] {
+                    "tx" => packed::Transaction::from_slice(&bs).ok().map(|t| (t.raw().as_slice().to_vec(), t.calc_tx_hash())),
+                    "wtx" => packed::Transaction::from_slice(&bs).ok().map(|t| (t.as_slice().to_vec(), t.calc_witness_hash())),
+                    "hdr" => packed::Header::from_slice(&bs).ok().map(|t| (t.as_slice().to_vec(), t.calc_header_hash())),
+                    "pow" => packed::Header::from_slice(&bs).ok().map(|t| (t.raw().as_slice().to_vec(), t.calc_pow_hash())),
+                    _ => panic!("unknown pre-image kind"),
+                };
+                match ans {
+                    Some((pre, h)) => pre_op(out, ts[1], &bs, &pre, h.as_slice()),
+                    None => out.op(&l, "err"),
+                }
+            }
+            "ju" => {
+                let n: u128 = ts[2].parse().expect("number");
+                out.op(&l, &format!("0x{:x}", n));
+            }
+            "jp" => {
+                let js = format!("\"{}\"", ts[2]);
+                let r: Option<u128> = match ts[1] {
+                    "32" => serde_json::from_str::<json::Uint32>(&js).ok().map(|x| x.value() as u128),
+                    "64" => serde_json::from_str::<json::Uint64>(&js).ok().map(|x| x.value() as u128),
+                    _ => serde_json::from_str::<json::Uint128>(&js).ok().map(|x| x.value()),
+                };
+                out.op(&l, &match r {
+                    Some(n) => format!("ok {}", n),
+                    None => "err".into(),
+                });
+            }
+            "jb" => {
+                let b = unhex(ts[1]);
+                let s = serde_json::to_string(&json::JsonBytes::from_vec(b)).unwrap();
+                out.op(&l, s.trim_matches('"'));
+            }
+            "jq" => {
+                let js = format!("\"{}\"", ts[1]);
+                let r = serde_json::from_str::<json::JsonBytes>(&js).ok();
+                out.op(&l, &match &r {
+                    Some(b) => format!("ok {}", hex(b.as_bytes())),
+                    None => "err".into(),
+                });
+            }
+            other => panic!("C15 replay: unknown op {other}"),
+        }
+    }
+    let _ = opts;
+}
+
+pub fn run(opts: &Opts) {
+    // panics inside catch_unwind are expected to be reported through the oracle, not the console
+    std::panic::set_hook(Box::new(|_| {}));
+    let mut out = Out::new(&opts.out);
+    let stream = opts.extra.first().map(|s| s.as_str()).unwrap_or("mol");
+    if let Some(p) = &opts.replay {
+        replay(opts, &mut out, p);
+    } else {
+        match stream {
+            "mol" => run_mol(opts, &mut out),
+            "json" => run_json(opts, &mut out),
+            "hash" => run_hash(opts, &mut out),
+            other => panic!("C15: unknown stream {other}"),
+        }
+    }
+    out.finish("mol: a case is one generated value of one declared molecule type (all ~190 types, main consensus/protocol types repeatedly), fingerprint type:min(encoded length,64); json: one round over the ten JSON-carried consensus types; hash: one transaction+header+block triple, fingerprint (#txs,#uncles)");
 }
